@@ -208,9 +208,18 @@ def transform_expression(
 
     # Extract the left part of the inequality
     symbolic_vars = {**symbols_to_use} if symbols_to_use else {}
-    for var in pddl_variables:
+    for var in sorted(pddl_variables):
         if var not in symbolic_vars:
-            symbolic_vars[var] = symbols(re.sub(r"[\(\-\)\s\?]", "", var))
+            # different variables may be left with the same name, e.g., (f-x ?a) and (fx ?a), so the name is
+            # made unique before it is used as a symbol.
+            used_names = {str(symbol) for symbol in symbolic_vars.values()}
+            stripped_name = re.sub(r"[\(\-\)\s\?]", "", var)
+            symbol_name, index = stripped_name, 0
+            while symbol_name in used_names:
+                index += 1
+                symbol_name = f"{stripped_name}_{index}"
+
+            symbolic_vars[var] = symbols(symbol_name)
 
     formatted_expression = expression
     for var, sym in symbolic_vars.items():
